@@ -23,13 +23,17 @@ type docCase struct {
 	IdxChildren int `json:"idx_children,omitempty"`
 	IdxGeometry int `json:"idx_geometry,omitempty"`
 	IdxKind     int `json:"idx_kind,omitempty"`
+	// representation options (they change the concrete Go type only, C08): bit 0 AllowSimplePoints, bit 1 AllowRects
+	Repr int `json:"repr,omitempty"`
 }
 
 func (c docCase) opts() *geojson.ParseOptions {
-	if c.IdxChildren == 0 && c.IdxGeometry == 0 && c.IdxKind == 0 {
+	if c.IdxChildren == 0 && c.IdxGeometry == 0 && c.IdxKind == 0 && c.Repr == 0 {
 		return nil
 	}
 	o := *geojson.DefaultParseOptions
+	o.AllowSimplePoints = c.Repr&1 != 0
+	o.AllowRects = c.Repr&2 != 0
 	if c.IdxChildren > 0 {
 		o.IndexChildren = c.IdxChildren
 	}
@@ -120,6 +124,7 @@ func c07Idx(t *rapid.T, c docCase) docCase {
 		c.IdxChildren = rapid.SampledFrom([]int{0, 1, 2, 3}).Draw(t, "idxch")
 		c.IdxGeometry = rapid.SampledFrom([]int{0, 1, 4, 17}).Draw(t, "idxg")
 		c.IdxKind = rapid.IntRange(0, 2).Draw(t, "idxk")
+		c.Repr = rapid.SampledFrom([]int{0, 0, 1, 2, 3}).Draw(t, "repr")
 	}
 	return c
 }
